@@ -834,7 +834,7 @@ func main() {
 	e.Finish("walk cases: nontrivial = the bytes could be opened (directly or after SequentialScan) and at least one object or page was reached; family cases: nontrivial as flagged by the generator (error-terminated sources, multi-section chains, all graph cases)",
 		map[string]any{
 			"planned_cases":            len(p),
-			"executed_cases":           len(all),
+			"executed_cases":           len(all) - statusCount["skipped"],
 			"status_counts":            statusCount,
 			"worker_restarts":          restarts,
 			"unconfirmed_suspects":     unconfirmed,
